@@ -46,7 +46,9 @@ func HarnessRedeployTraffic() {
 		svcTime := vDur("service_time" + vItoa(c))
 		vAssume(svcTime < drainTimeout) // requests in flight finish within the drain timeout
 		// (some clients merely offer a protocol upgrade that never happens: still an ordinary request)
-		vProxyPlans[c] = &vProxyPlan{service: svcTime, upgradeHeader: vChoose("upgrade_header"+vItoa(c), 2) == 1}
+		// (some clients merely offer a protocol upgrade that never happens, or ask for an event stream: still ordinary requests)
+		hdr := vChoose("request_header"+vItoa(c), 3)
+		vProxyPlans[c] = &vProxyPlan{service: svcTime, upgradeHeader: hdr == 1, eventStream: hdr == 2}
 		if vDirected {
 			vAssume(arrival == 0)
 		}
